@@ -3,6 +3,7 @@
   and the zero-error property of the attitude laws.
 -/
 import GenM.Ctrl
+import GenM.RefP
 import Lib.Sat
 import Lib.Rot
 import Mathlib.Analysis.Real.Pi.Bounds
@@ -129,5 +130,104 @@ theorem attitude_zero_neg (kp : Fin 3 → ℝ) (q : Fin 4 → ℝ) :
     rdd2.attitude_control.omega_0 kp q (-q) = 0 ∧ rdd2.attitude_control.omega_1 kp q (-q) = 0
       ∧ rdd2.attitude_control.omega_2 kp q (-q) = 0 := by
   refine ⟨?_, ?_, ?_⟩ <;> simp only [cas_defs, cas_real, Pi.neg_apply] <;> ring_nf <;> simp
+
+
+/-! ## position: the feedback part of the demanded force (T minus trim and height-integrator terms) never exceeds 30 % of the
+    weight, whatever the errors; it IS the unsaturated feedback when that is within the limit; the height integrator stays
+    within its limit (the shipped limit is 0).  `P` = feedback before saturation, exposed by a probe of the real body. -/
+section position
+variable (thrust_trim : ℝ) (pt_w vt_w at_w : Fin 3 → ℝ) (qc_wb : Fin 4 → ℝ) (p_w v_w : Fin 3 → ℝ) (z_i dt : ℝ)
+variable (P0 P1 P2 T0 T1 T2 yt y0 y1 y2 : ℝ) (d00 d10 d20 d01 d11 d21 d02 d12 d22 : ℝ)
+
+theorem position_feedback_cut :
+    (rdd2.position_control_p.T_0_cut thrust_trim pt_w vt_w at_w qc_wb p_w v_w z_i dt P0 P1 P2 T0 T1 T2 yt y0 y1 y2 d00 d10 d20 d01 d11 d21 d02 d12 d22) ^ 2
+    + (rdd2.position_control_p.T_1_cut thrust_trim pt_w vt_w at_w qc_wb p_w v_w z_i dt P0 P1 P2 T0 T1 T2 yt y0 y1 y2 d00 d10 d20 d01 d11 d21 d02 d12 d22) ^ 2
+    + (rdd2.position_control_p.T_2_cut thrust_trim pt_w vt_w at_w qc_wb p_w v_w z_i dt P0 P1 P2 T0 T1 T2 yt y0 y1 y2 d00 d10 d20 d01 d11 d21 d02 d12 d22
+        - thrust_trim - 3602879701896397 * 2 ^ (-56:ℤ) * z_i) ^ 2
+    ≤ ((3707363213251393:ℝ) * 2 ^ (-49:ℤ)) ^ 2 := by
+  have h := Sat.leash 0 0 0 P0 P1 P2 ((3707363213251393:ℝ) * 2 ^ (-49:ℤ)) (by positivity)
+  simp only [cas_defs, cas_real]
+  refine le_trans (le_of_eq ?_) h
+  split_ifs <;> ring
+
+theorem position_feedback_id_cut (h : Real.sqrt (P0 * P0 + P1 * P1 + P2 * P2) ≤ (3707363213251393:ℝ) * 2 ^ (-49:ℤ)) :
+    rdd2.position_control_p.T_0_cut thrust_trim pt_w vt_w at_w qc_wb p_w v_w z_i dt P0 P1 P2 T0 T1 T2 yt y0 y1 y2 d00 d10 d20 d01 d11 d21 d02 d12 d22 = P0
+    ∧ rdd2.position_control_p.T_1_cut thrust_trim pt_w vt_w at_w qc_wb p_w v_w z_i dt P0 P1 P2 T0 T1 T2 yt y0 y1 y2 d00 d10 d20 d01 d11 d21 d02 d12 d22 = P1
+    ∧ rdd2.position_control_p.T_2_cut thrust_trim pt_w vt_w at_w qc_wb p_w v_w z_i dt P0 P1 P2 T0 T1 T2 yt y0 y1 y2 d00 d10 d20 d01 d11 d21 d02 d12 d22 = P2 + thrust_trim + 3602879701896397 * 2 ^ (-56:ℤ) * z_i := by
+  have h' := not_lt.mpr h
+  refine ⟨?_, ?_, ?_⟩ <;>
+    simp only [cas_defs, cas_real, h', if_false, if_true, not_false_eq_true, not_true_eq_false, ne_eq, one_ne_zero, zero_add]
+end position
+
+section position_real
+variable (thrust_trim : ℝ) (pt_w vt_w at_w : Fin 3 → ℝ) (qc_wb : Fin 4 → ℝ) (p_w v_w : Fin 3 → ℝ) (z_i dt : ℝ)
+local notation "PP" i => (rdd2.position_control_p.P_vec thrust_trim pt_w vt_w at_w qc_wb p_w v_w z_i dt) i
+local notation "PT" i => (rdd2.position_control_p.T_vec thrust_trim pt_w vt_w at_w qc_wb p_w v_w z_i dt) i
+
+/-- **position**: ‖T − (trim + k_i z_i) e₃‖ ≤ 0.3 m g for EVERY input (0.3·m·g = 6.5856 as the code's double) -/
+theorem position_feedback_bound :
+    (PT 0) ^ 2 + (PT 1) ^ 2 + ((PT 2) - thrust_trim - 3602879701896397 * 2 ^ (-56:ℤ) * z_i) ^ 2
+      ≤ ((3707363213251393:ℝ) * 2 ^ (-49:ℤ)) ^ 2 :=
+  position_feedback_cut thrust_trim pt_w vt_w at_w qc_wb p_w v_w z_i dt (PP 0) (PP 1) (PP 2) 0 0 0 0 0 0 0 0 0 0 0 0 0 0 0 0
+
+/-- within the limit the demanded force is feedback + trim + integrator term, unchanged -/
+theorem position_feedback_id (h : Real.sqrt ((PP 0) * (PP 0) + (PP 1) * (PP 1) + (PP 2) * (PP 2)) ≤ (3707363213251393:ℝ) * 2 ^ (-49:ℤ)) :
+    (PT 0) = (PP 0) ∧ (PT 1) = (PP 1) ∧ (PT 2) = (PP 2) + thrust_trim + 3602879701896397 * 2 ^ (-56:ℤ) * z_i :=
+  position_feedback_id_cut thrust_trim pt_w vt_w at_w qc_wb p_w v_w z_i dt (PP 0) (PP 1) (PP 2) 0 0 0 0 0 0 0 0 0 0 0 0 0 0 0 0 h
+
+/-- the height integrator output stays within its limit (the shipped limit is 0, so the output is 0) -/
+theorem position_height_integrator : rdd2.position_control_p.z_i_2 thrust_trim pt_w vt_w at_w qc_wb p_w v_w z_i dt = 0 := by
+  simp only [cas_defs, cas_real]
+  split_ifs <;> first | rfl | linarith
+end position_real
+
+/-! ## se23_position: the feedback part of the demanded force (T minus trim and height-integrator terms) never exceeds 30 % of the
+    weight, whatever the errors; it IS the unsaturated feedback when that is within the limit; the height integrator stays
+    within its limit (the shipped limit is 0).  `P` = feedback before saturation, exposed by a probe of the real body. -/
+section se23_position
+variable (thrust_trim : ℝ) (kp : Fin 3 → ℝ) (zeta : Fin 9 → ℝ) (at_w : Fin 3 → ℝ) (qc_wb : Fin 4 → ℝ) (z_i dt : ℝ)
+variable (P0 P1 P2 T0 T1 T2 yt y0 y1 y2 : ℝ) (d00 d10 d20 d01 d11 d21 d02 d12 d22 : ℝ)
+
+theorem se23_position_feedback_cut :
+    (loglinear.se23_position_control_p.T_0_cut thrust_trim kp zeta at_w qc_wb z_i dt P0 P1 P2 T0 T1 T2 yt y0 y1 y2 d00 d10 d20 d01 d11 d21 d02 d12 d22) ^ 2
+    + (loglinear.se23_position_control_p.T_1_cut thrust_trim kp zeta at_w qc_wb z_i dt P0 P1 P2 T0 T1 T2 yt y0 y1 y2 d00 d10 d20 d01 d11 d21 d02 d12 d22) ^ 2
+    + (loglinear.se23_position_control_p.T_2_cut thrust_trim kp zeta at_w qc_wb z_i dt P0 P1 P2 T0 T1 T2 yt y0 y1 y2 d00 d10 d20 d01 d11 d21 d02 d12 d22
+        - thrust_trim - 3602879701896397 * 2 ^ (-56:ℤ) * z_i) ^ 2
+    ≤ ((3707363213251393:ℝ) * 2 ^ (-49:ℤ)) ^ 2 := by
+  have h := Sat.leash 0 0 0 P0 P1 P2 ((3707363213251393:ℝ) * 2 ^ (-49:ℤ)) (by positivity)
+  simp only [cas_defs, cas_real]
+  refine le_trans (le_of_eq ?_) h
+  split_ifs <;> ring
+
+theorem se23_position_feedback_id_cut (h : Real.sqrt (P0 * P0 + P1 * P1 + P2 * P2) ≤ (3707363213251393:ℝ) * 2 ^ (-49:ℤ)) :
+    loglinear.se23_position_control_p.T_0_cut thrust_trim kp zeta at_w qc_wb z_i dt P0 P1 P2 T0 T1 T2 yt y0 y1 y2 d00 d10 d20 d01 d11 d21 d02 d12 d22 = P0
+    ∧ loglinear.se23_position_control_p.T_1_cut thrust_trim kp zeta at_w qc_wb z_i dt P0 P1 P2 T0 T1 T2 yt y0 y1 y2 d00 d10 d20 d01 d11 d21 d02 d12 d22 = P1
+    ∧ loglinear.se23_position_control_p.T_2_cut thrust_trim kp zeta at_w qc_wb z_i dt P0 P1 P2 T0 T1 T2 yt y0 y1 y2 d00 d10 d20 d01 d11 d21 d02 d12 d22 = P2 + thrust_trim + 3602879701896397 * 2 ^ (-56:ℤ) * z_i := by
+  have h' := not_lt.mpr h
+  refine ⟨?_, ?_, ?_⟩ <;>
+    simp only [cas_defs, cas_real, h', if_false, if_true, not_false_eq_true, not_true_eq_false, ne_eq, one_ne_zero, zero_add]
+end se23_position
+
+section se23_position_real
+variable (thrust_trim : ℝ) (kp : Fin 3 → ℝ) (zeta : Fin 9 → ℝ) (at_w : Fin 3 → ℝ) (qc_wb : Fin 4 → ℝ) (z_i dt : ℝ)
+local notation "PP" i => (loglinear.se23_position_control_p.P_vec thrust_trim kp zeta at_w qc_wb z_i dt) i
+local notation "PT" i => (loglinear.se23_position_control_p.T_vec thrust_trim kp zeta at_w qc_wb z_i dt) i
+
+/-- **se23_position**: ‖T − (trim + k_i z_i) e₃‖ ≤ 0.3 m g for EVERY input (0.3·m·g = 6.5856 as the code's double) -/
+theorem se23_position_feedback_bound :
+    (PT 0) ^ 2 + (PT 1) ^ 2 + ((PT 2) - thrust_trim - 3602879701896397 * 2 ^ (-56:ℤ) * z_i) ^ 2
+      ≤ ((3707363213251393:ℝ) * 2 ^ (-49:ℤ)) ^ 2 :=
+  se23_position_feedback_cut thrust_trim kp zeta at_w qc_wb z_i dt (PP 0) (PP 1) (PP 2) 0 0 0 0 0 0 0 0 0 0 0 0 0 0 0 0
+
+/-- within the limit the demanded force is feedback + trim + integrator term, unchanged -/
+theorem se23_position_feedback_id (h : Real.sqrt ((PP 0) * (PP 0) + (PP 1) * (PP 1) + (PP 2) * (PP 2)) ≤ (3707363213251393:ℝ) * 2 ^ (-49:ℤ)) :
+    (PT 0) = (PP 0) ∧ (PT 1) = (PP 1) ∧ (PT 2) = (PP 2) + thrust_trim + 3602879701896397 * 2 ^ (-56:ℤ) * z_i :=
+  se23_position_feedback_id_cut thrust_trim kp zeta at_w qc_wb z_i dt (PP 0) (PP 1) (PP 2) 0 0 0 0 0 0 0 0 0 0 0 0 0 0 0 0 h
+
+/-- the height integrator output stays within its limit (the shipped limit is 0, so the output is 0) -/
+theorem se23_position_height_integrator : loglinear.se23_position_control_p.z_i_2 thrust_trim kp zeta at_w qc_wb z_i dt = 0 := by
+  simp only [cas_defs, cas_real]
+  split_ifs <;> first | rfl | linarith
+end se23_position_real
 
 end C15
